@@ -52,12 +52,31 @@ Protocol (`c10 kind=<k> …`; every value is a decimal integer or a comma separa
       -> `ok= n=`; `cooccurence`: `res.at(v, v2)` on a result of shape (m0, m1) (skipped when v or v2 < 0).
   kind=plusminus n= plus= minus=
       -> `ok= n=`; `compute_plus_minus` on an n x n matrix with `px_plus_y` of `plus` and `px_minus_y` of `minus` elements.
+  kind=zoomshift shape=<ints> order=<0..5> mode=<0..5> coord=<ints, one per axis>
+      -> `ok= n= term= sum= flag= idx=`; `zoom_shift` at ONE output position of a C-contiguous array: `coord` holds
+         per axis `round(cc)` (outside the array) resp. `floor(cc)` / `floor(cc+0.5)` (inside); `flag=1` when the
+         border rule flags an axis (no access); else all `(order+1)^rank` indices `idxs[fi]` against the array size;
+         `sum` = Σ of the indices, `idx` = the indices in the order of `fi` (compared by the harness with a direct
+         evaluation and with the elements the real `zoom_shift` reads, recovered with one-hot arrays).
+  kind=spline  len= mxs=<ints, one horizon per pole>   -> `ok= n= term= sum=`; one line of `spline_filter1d`
+  kind=haar n1= | kind=wavelet n1= nc= | kind=iwavelet n1= nc= step= | kind=ihaar n1= step=  -> `ok= n= term= sum=`
+  kind=integral n0= n1=   -> `ok= n= term= sum=`
+  kind=graham  n= [pop1=<ints>] [pop2=<ints>]
+      -> `ok= n= term= sum= h=`; `inPlaceGraham` on n points; the `isLeft(..) >= 0` test of scan s at `(i,h)` is
+         TRUE (pop) iff pop<s>[(i+h) % len] != 0 (empty list: never).
+  kind=thin    rows= cols= img=<0/1 flat, C order>
+      -> `ok= n= term= sum= frame=`; one `fast_hitmiss` sweep (all eight elements); `frame=1` iff no set pixel
+         lies on the one-pixel frame.
+  kind=cwnb    shape=<ints> bshape=<ints>
+      -> `ok= n= term= sum=`; `cwatershed`: every neighbour access `pos + delta` that passes the margin test.
   any other kind -> `error=unknown-kind-<k>`
 
 `term=1` means every `for (…; i != stop; ++i)` loop of the model left through its test within the
 step budget (budget = buffer length + 1, so a run-away loop shows up as `term=0` and `ok=0`).
 -/
 import Mahotas.Model.Border
+import Mahotas.Model.C04
+import Mahotas.Generated.Tables
 namespace Mahotas.C10
 open Mahotas
 
@@ -456,12 +475,282 @@ def plusMinusAccesses (n plus minus : Int) : List Acc :=
   (rangeI n).flatMap fun i => (rangeI n).flatMap fun j =>
     [Acc.mk (i + j) plus, Acc.mk ((i - j).natAbs : Int) minus, Acc.mk i n, Acc.mk j n]
 
+
+/-! ## B8 — `zoom_shift`, `spline_filter1d` (`_interpolate.cpp`) -/
+
+/-- the folding of an edge sample index (`zoom_shift`, "precalculate offsets at the edge"):
+    `if (len <= 1) idx = 0; else { s2 = 2*len-2; if (idx < 0) { idx = s2*(int)(-idx/s2) + idx;
+    idx = idx <= 1-len ? idx+s2 : -idx; } else if (idx >= len) { idx -= s2*(int)(idx/s2);
+    if (idx >= len) idx = s2-idx; } }` -/
+def zsFold (len idx : Int) : Int :=
+  if len ≤ 1 then 0 else
+    let s2 := 2 * len - 2
+    if idx < 0 then
+      let idx := s2 * ((-idx).tdiv s2) + idx
+      if idx ≤ 1 - len then idx + s2 else -idx
+    else if idx ≥ len then
+      let idx := idx - s2 * (idx.tdiv s2)
+      if idx ≥ len then s2 - idx else idx
+    else idx
+
+/-- the coordinate after the border rule: `if (cc < 0 || cc > dim-1) cc = fix_offset(mode, round(cc), dim)`;
+    `c` is `round(cc)` for a coordinate outside the array and `floor(cc)` (odd orders) resp.
+    `floor(cc + 0.5)` (even orders) for one inside `[0, dim-1]`; `none` = `border_flag_value`. -/
+def zsBase (m : Mode) (len c : Int) : Option Int :=
+  if c < 0 ∨ c > len - 1 then fixOffset m c len else some c
+
+/-- `start = int(floor(..) - order/2)` -/
+def zsStart (order : Nat) (b : Int) : Int := b - ((order / 2 : Nat) : Int)
+
+/-- `if (start < 0 || start + order >= array.dim(r))`: the position has `edge_offsets` -/
+def zsEdge (len : Int) (order : Nat) (start : Int) : Bool :=
+  decide (start < 0 ∨ start + (order : Int) ≥ len)
+
+/-- the sample coordinate along one axis for filter coordinate `f` -/
+def zsCoord (len : Int) (order : Nat) (start f : Int) : Int :=
+  if zsEdge len order start then zsFold len (start + f) else start + f
+
+def zsCoords : List Nat → Nat → List Int → List Int → List Int
+  | a :: as, order, st :: sts, f :: fs => zsCoord a order st f :: zsCoords as order sts fs
+  | _, _, _, _ => []
+
+def zsAnyEdge : List Nat → Nat → List Int → Bool
+  | a :: as, order, st :: sts => zsEdge a order st || zsAnyEdge as order sts
+  | _, _, _ => false
+
+/-- the `on_edge` sum: `edge_offsets[r][kk][ff[r]] = stride(r) * (fold(start+ff[r]) - start)` on the axes
+    that have edge offsets, `ff[r] * stride(r)` on the others -/
+def zsEdgeSum : List Nat → List Int → Nat → List Int → List Int → Int
+  | a :: as, s :: ss, order, st :: sts, f :: fs =>
+    (if zsEdge a order st then s * (zsFold a (st + f) - st) else f * s) + zsEdgeSum as ss order sts fs
+  | _, _, _, _, _ => 0
+
+/-- one step of the odometer that fills `fcoordinates` / `foffsets`: from the last axis backwards
+    `if (ftmp[r] < order) { ftmp[r]++; off += stride(r); break; } else { ftmp[r] = 0; off -= stride(r)*order; }`.
+    Returns the new `ftmp`, the change of `off`, and whether every axis wrapped. -/
+def zsOdoStep (order : Int) : List Int → List Int → List Int × Int × Bool
+  | s :: ss, f :: fs =>
+    let r := zsOdoStep order ss fs
+    if !r.2.2 then (f :: r.1, r.2.1, false)
+    else if f < order then ((f + 1) :: r.1, r.2.1 + s, false)
+    else (0 :: r.1, r.2.1 - s * order, true)
+  | _, _ => ([], 0, true)
+
+/-- `(ftmp, off)` when entry `hh` of `fcoordinates` / `foffsets` is written -/
+def zsOdo (order : Int) (strides : List Int) : Nat → List Int × Int
+  | 0 => (strides.map (fun _ => 0), 0)
+  | n + 1 =>
+    let st := zsOdo order strides n
+    let r := zsOdoStep order strides st.1
+    (r.1, st.2 + r.2.1)
+
+/-- `idxs[fi]` for the filter entry `(ff, foff) = (fcoordinates[fi], foffsets[fi])`:
+    `oo = Σ offsets[r] = Σ stride(r)*start_r`; on an edge `Σ edge/normal offsets + oo`, else `oo + foffsets[fi]` -/
+def zsIdx (shape : List Nat) (strides : List Int) (order : Nat) (starts : List Int) (e : List Int × Int) : Int :=
+  let oo := dot strides starts
+  if zsAnyEdge shape order starts then zsEdgeSum shape strides order starts e.1 + oo else oo + e.2
+
+/-- C-order element strides of a shape -/
+def cStrides : List Nat → List Int
+  | _ :: ds => (shapeSize ds : Int) :: cStrides ds
+  | [] => []
+
+/-- all `array.data()[idxs[fi]]`, `fi < filter_size = (order+1)^rank`, for one output position whose
+    per-axis `start`s are given -/
+def zsAccesses (shape : List Nat) (strides : List Int) (order : Nat) (starts : List Int) : List Int :=
+  (List.range ((order + 1) ^ shape.length)).map fun fi =>
+    zsIdx shape strides order starts (zsOdo order strides fi)
+
+/-- per-axis bases after the border rule; `none` when some axis is flagged (`*io = cval; continue`) -/
+def zsStarts (m : Mode) (order : Nat) : List Nat → List Int → Option (List Int)
+  | a :: as, c :: cs =>
+    match zsBase m a c, zsStarts m order as cs with
+    | some b, some r => some (zsStart order b :: r)
+    | _, _ => none
+  | _, _ => some []
+
+/-- one line of `spline_filter1d` of length `len` (`line[stride*ll]` recorded as the axis coordinate `ll`);
+    `mxs` = for every pole the horizon `max = (int)ceil(log_tolerance / log|p|)` of the initial causal sum.
+    Loops: weights `ll < len`; per pole: `max < len`: `line[0]`, `ll = 1 … max-1`, else `line[0]`, `line[len-1]`,
+    `ll = 1 … len-2`; store `line[0]`; causal `ll = 1 … len-1` (`ll`, `ll-1`); `line[len-1]`, `line[len-2]`;
+    anticausal `ll = len-2 … 0` (`ll+1`, `ll`). -/
+def splineAccesses (len : Int) (mxs : List Int) : List Acc :=
+  if len ≤ 1 then [] else
+  let at_ (ll : Int) := Acc.mk ll len
+  (rangeI len).map at_ ++
+  mxs.flatMap fun mx =>
+    (if mx < len then at_ 0 :: (rangeI (mx - 1)).map (fun j => at_ (j + 1))
+     else [at_ 0, at_ (len - 1)] ++ (rangeI (len - 2)).map (fun j => at_ (j + 1))) ++ [at_ 0] ++
+    ((rangeI (len - 1)).flatMap fun j => [at_ (j + 1), at_ (j + 1 - 1)]) ++
+    [at_ (len - 1), at_ (len - 1), at_ (len - 2)] ++
+    ((rangeI (len - 1)).flatMap fun j => [at_ (len - 2 - j), at_ (len - 2 - j + 1), at_ (len - 2 - j)])
+
+/-! ## B8 — `haar`, `wavelet`, `iwavelet`, `ihaar` (`_convolve.cpp`), one row of `N1` columns -/
+
+/-- `haar`: reads `data[2x*step]`, `data[(2x+1)*step]`, writes `low[x]`, `high[x] = buffer[N1/2 + x]` for
+    `x != N1/2`; then `data[step*x] = buffer[x]` for `x != N1`. Columns against `N1`, buffer indices against
+    the `bufdata.resize(N1)` allocation. -/
+def haarAccesses (n1 : Int) : List Acc :=
+  let h := n1 / 2
+  let fuel := n1.toNat + 1
+  ((iterNe 0 h fuel).flatMap fun x =>
+    [Acc.mk (2 * x) n1, Acc.mk (2 * x + 1) n1, Acc.mk x n1, Acc.mk (h + x) n1]) ++
+  (iterNe 0 n1 fuel).flatMap fun x => [Acc.mk x n1, Acc.mk x n1]
+
+def haarDone (n1 : Int) : Bool :=
+  iterNeDone 0 (n1 / 2) (n1.toNat + 1) && iterNeDone 0 n1 (n1.toNat + 1)
+
+/-- `_access(data, N, p, step)`: `if (p < 0) return 0; if (p >= N) return 0; return data[p*step];` -/
+def guardedAccess (n p : Int) : List Acc := if p < 0 then [] else if p ≥ n then [] else [Acc.mk p n]
+
+/-- `wavelet`: for `x < N1/2`, `ci != ncoeffs`: `_access(data, N1, 2x+ci, step)`, `coeffs[ncoeffs-ci-1]`,
+    `coeffs[ci]`; `low[x]`, `high[x]`; then the copy loop. -/
+def waveletAccesses (n1 nc : Int) : List Acc :=
+  let h := n1 / 2
+  ((rangeI h).flatMap fun x =>
+    ((iterNe 0 nc (nc.toNat + 1)).flatMap fun ci =>
+      guardedAccess n1 (2 * x + ci) ++ [Acc.mk (nc - ci - 1) nc, Acc.mk ci nc]) ++
+    [Acc.mk x n1, Acc.mk (h + x) n1]) ++
+  (iterNe 0 n1 (n1.toNat + 1)).flatMap fun x => [Acc.mk x n1, Acc.mk x n1]
+
+def waveletDone (n1 nc : Int) : Bool :=
+  iterNeDone 0 nc (nc.toNat + 1) && iterNeDone 0 n1 (n1.toNat + 1)
+
+/-- `iwavelet` on a row whose columns are `step ≥ 1` elements apart; recorded are ELEMENT offsets from
+    `data = array.data(y)` against the extent `(N1-1)*step + 1` of the row. `low = data`,
+    `high = data + step*N1/2` (for odd `step*N1` this is NOT a column of the row, but inside its extent);
+    for `x < N1`, `ci != ncoeffs`: `xmap2 = x+ci-ncoeffs+2`; when odd `xmap = xmap2/2` (C division, towards 0),
+    `coeffs[ci]`, `coeffs[ncoeffs-ci-1]`, `_access(low, N1/2, xmap, step)`, `_access(high, N1/2, xmap, step)`;
+    `buffer[x]`; copy loop. -/
+def iwaveletAccesses (n1 nc step : Int) : List Acc :=
+  let h := n1 / 2
+  let ext := (n1 - 1) * step + 1
+  let hi := (step * n1).tdiv 2
+  ((rangeI n1).flatMap fun x =>
+    ((iterNe 0 nc (nc.toNat + 1)).flatMap fun ci =>
+      let xmap2 := x + ci - nc + 2
+      if xmap2 % 2 = 0 then [] else
+        let xmap := xmap2.tdiv 2
+        [Acc.mk ci nc, Acc.mk (nc - ci - 1) nc] ++
+        (guardedAccess h xmap).map (fun a => Acc.mk (a.i * step) ext) ++
+        (guardedAccess h xmap).map (fun a => Acc.mk (hi + a.i * step) ext)) ++
+    [Acc.mk x n1]) ++
+  (iterNe 0 n1 (n1.toNat + 1)).flatMap fun x => [Acc.mk (step * x) ext, Acc.mk x n1]
+
+/-- `ihaar`: `high[x*step]`, `low[x*step]`, `buffer[2x]`, `buffer[2x+1]` for `x != N1/2`; copy loop.
+    Element offsets against the row extent as in `iwaveletAccesses`. -/
+def ihaarAccesses (n1 step : Int) : List Acc :=
+  let h := n1 / 2
+  let ext := (n1 - 1) * step + 1
+  let hi := (step * n1).tdiv 2
+  ((iterNe 0 h (n1.toNat + 1)).flatMap fun x =>
+    [Acc.mk (hi + x * step) ext, Acc.mk (x * step) ext, Acc.mk (2 * x) n1, Acc.mk (2 * x + 1) n1]) ++
+  (iterNe 0 n1 (n1.toNat + 1)).flatMap fun x => [Acc.mk (step * x) ext, Acc.mk x n1]
+
+/-! ## B8 — `integral` (`features/_surf.cpp`) -/
+
+/-- `integral`: behind `if (N0 == 0 || N1 == 0) return;` the first row `at(0,j) += at(0,j-1)`, `j = 1 … N1-1`,
+    then `at(i,0) += at(i-1,0)` and `at(i,j) += at(i-1,j) + at(i,j-1) - at(i-1,j-1)`; every `at(r,c)` is
+    recorded as a row index against `N0` and a column index against `N1`. -/
+def integralAccesses (n0 n1 : Int) : List Acc :=
+  if n0 = 0 ∨ n1 = 0 then [] else
+  let f0 := n0.toNat + 1
+  let f1 := n1.toNat + 1
+  let at_ (r c : Int) := [Acc.mk r n0, Acc.mk c n1]
+  ((iterNe 1 n1 f1).flatMap fun j => at_ 0 j ++ at_ 0 (j - 1)) ++
+  (iterNe 1 n0 f0).flatMap fun i =>
+    at_ i 0 ++ at_ (i - 1) 0 ++
+    (iterNe 1 n1 f1).flatMap fun j => at_ i j ++ at_ (i - 1) j ++ at_ i (j - 1) ++ at_ (i - 1) (j - 1)
+
+def integralDone (n0 n1 : Int) : Bool :=
+  if n0 = 0 ∨ n1 = 0 then true else
+  iterNeDone 1 n1 (n1.toNat + 1) && iterNeDone 1 n0 (n0.toNat + 1)
+
+/-! ## B8 — Graham scan (`_convex.cpp`) -/
+
+/-- `while (h >= 2 && isLeft(P[h-2],P[h-1],P[i]) >= 0) --h;` with the test abstracted as an oracle of `(i, h)`
+    (a pair is tested at most once per scan since `h` decreases); `P = Pv + base`, `Pv` has `size` points. -/
+def ghPop (cmp : Nat → Nat → Bool) (base size : Int) (i : Nat) : Nat → List Acc × Nat
+  | h + 2 =>
+    let here := [Acc.mk (base + (h : Nat)) size, Acc.mk (base + ((h + 1 : Nat) : Int)) size,
+                 Acc.mk (base + (i : Int)) size]
+    if cmp i (h + 2) then
+      let r := ghPop cmp base size i (h + 1)
+      (here ++ r.1, r.2)
+    else (here, h + 2)
+  | h => ([], h)
+
+/-- `cnt` rounds of `for (i = 1; i != N; ++i) { while …; std::swap(P[h],P[i]); ++h; }` from `(i, h)` -/
+def ghScan (cmp : Nat → Nat → Bool) (base size : Int) : Nat → Nat → Nat → List Acc × Nat
+  | 0, _, h => ([], h)
+  | c + 1, i, h =>
+    let r := ghPop cmp base size i h
+    let sw := [Acc.mk (base + (r.2 : Int)) size, Acc.mk (base + (i : Int)) size]
+    let rest := ghScan cmp base size c (i + 1) (r.2 + 1)
+    (r.1 ++ sw ++ rest.1, rest.2)
+
+/-- `inPlaceGraham`: `if (N <= 3) return N; h = scan(P, N); for (i = 0; i != h-1; ++i) swap(P[i],P[i+1]);
+    h_ = scan(P+h-2, N-h+2); return h + h_ - 2;` and then `Pv[i]`, `i != h + h_ - 2`, of the caller.
+    Returns the accesses, the returned hull size and whether the `!=` loop left through its test. -/
+def grahamRun (cmp1 cmp2 : Nat → Nat → Bool) (n : Nat) : List Acc × Int × Bool :=
+  if n ≤ 3 then ((rangeI n).map (fun i => Acc.mk i n), n, true) else
+  let s1 := ghScan cmp1 0 n (n - 1) 1 1
+  let h : Int := s1.2
+  let sw := (iterNe 0 (h - 1) (n + 1)).flatMap fun i => [Acc.mk i n, Acc.mk (i + 1) n]
+  let s2 := ghScan cmp2 (h - 2) n (((n : Int) - h + 2).toNat - 1) 1 1
+  let res : Int := h + s2.2 - 2
+  (s1.1 ++ sw ++ s2.1 ++ (rangeI res).map (fun i => Acc.mk i n), res, iterNeDone 0 (h - 1) (n + 1))
+
+/-! ## B5 — `thin` (`_thin.cpp: match / fast_hitmiss` on the zero-framed image built by `thin.py`) -/
+
+/-- `elem.offset[j] = coordinates_delta(array, delta0[j], delta1[j]) = d0*cols + d1` for the C-contiguous
+    `rows × cols` image, for the eight elements in pass order (tables extracted from the source) -/
+def thinOffsets (cols : Int) : List Int :=
+  Generated.thinElems.flatMap fun e => e.map fun t => t.1 * cols + t.2.1
+
+/-- `match(first, elem)` at flat index `i` for all eight elements: `*array` always; the six neighbours
+    `*(array + elem.offset[j])` only when the pixel is set (`if (!*array) return false;`). The model records
+    all six (the code stops at the first mismatch). -/
+def thinAccessesAt (rows cols : Int) (i : Int) (set : Bool) : List Acc :=
+  Acc.mk i (rows * cols) :: (if set then (thinOffsets cols).map fun d => Acc.mk (i + d) (rows * cols) else [])
+
+/-- is flat index `i` on the one-pixel frame of the `rows × cols` image? -/
+def thinOnFrame (rows cols : Int) (i : Int) : Bool :=
+  decide (i / cols = 0) || decide (i / cols = rows - 1) || decide (i % cols = 0) || decide (i % cols = cols - 1)
+
+/-- all dereferences of one `fast_hitmiss` sweep over the image `img` (flat, C order) -/
+def thinSweep (rows cols : Int) (img : List Bool) : List Acc :=
+  img.zipIdx.flatMap fun bi => thinAccessesAt rows cols (bi.2 : Int) bi.1
+
+/-- the update after each element: `if (*pb && *pa) *pa = false;` -/
+def thinUpdate (img buf : List Bool) : List Bool := List.zipWith (fun a b => a && !b) img buf
+
+/-- no set pixel on the frame -/
+def thinFrameClear (rows cols : Int) (img : List Bool) : Bool :=
+  img.zipIdx.all fun bi => !(bi.1 && thinOnFrame rows cols (bi.2 : Int))
+
+/-! ## B4 — `cwatershed`: the neighbour accesses behind the margin test (definitions of `Model/C04.lean`) -/
+
+/-- for every flat position `i` and every offset `o` of the neighbourhood: when the bounds decision
+    `nbCheck` (started from the exact margin) lets the neighbour through, the access `npos = i + delta`
+    against the image size -/
+def cwAccesses (shape : List Nat) (offs : List (List Int)) : List Acc :=
+  (List.range (shapeSize shape)).flatMap fun i =>
+    offs.flatMap fun o =>
+      match C04.nbCheck shape i (C04.marginOf shape (unravelI shape i)) ⟨C04.posToFlat shape o, C04.chebStep o, o⟩ with
+      | none => []
+      | some _ => [Acc.mk ((i : Int) + C04.posToFlat shape o) (shapeSize shape)]
+
 /-! ## protocol -/
 
 def b2s (b : Bool) : String := if b then "1" else "0"
 
 def report (l : List Acc) (term : Bool := true) : String :=
   s!"ok={b2s (allOk l && term)} n={l.length} term={b2s term}"
+
+/-- as `report`, plus the sum of all indices (a cheap fingerprint of the index list) -/
+def report2 (l : List Acc) (term : Bool := true) : String :=
+  report l term ++ s!" sum={(l.map (·.i)).foldl (· + ·) 0}"
 
 def handle (a : Args) : String :=
   match a.str "kind" with
@@ -520,6 +809,38 @@ def handle (a : Args) : String :=
     report (comAccesses (a.int "ndim") (a.int "maxlabel") (a.int "label") (a.int "size") (a.int "lsize"))
   | "cooc" => report (coocAccesses (a.int "m0") (a.int "m1") (a.int "v") (a.int "v2"))
   | "plusminus" => report (plusMinusAccesses (a.int "n") (a.int "plus") (a.int "minus"))
+  | "zoomshift" =>
+    match Mode.ofCode (a.nat "mode") with
+    | none => "error=bad-mode"
+    | some m =>
+      let shape := a.nats "shape"
+      let order := a.nat "order"
+      match zsStarts m order shape (a.ints "coord") with
+      | none => report2 [] ++ " flag=1 idx=-"
+      | some starts =>
+        let n : Int := shapeSize shape
+        let idx := zsAccesses shape (cStrides shape) order starts
+        report2 (idx.map fun i => Acc.mk i n) ++ s!" flag=0 idx={showInts idx}"
+  | "spline" => report2 (splineAccesses (a.int "len") (a.ints "mxs"))
+  | "haar" => report2 (haarAccesses (a.int "n1")) (haarDone (a.int "n1"))
+  | "wavelet" => report2 (waveletAccesses (a.int "n1") (a.int "nc")) (waveletDone (a.int "n1") (a.int "nc"))
+  | "iwavelet" =>
+    report2 (iwaveletAccesses (a.int "n1") (a.int "nc") (a.int "step")) (waveletDone (a.int "n1") (a.int "nc"))
+  | "ihaar" => report2 (ihaarAccesses (a.int "n1") (a.int "step")) (haarDone (a.int "n1"))
+  | "integral" => report2 (integralAccesses (a.int "n0") (a.int "n1")) (integralDone (a.int "n0") (a.int "n1"))
+  | "graham" =>
+    let p1 := a.ints "pop1"; let p2 := a.ints "pop2"
+    let c1 : Nat → Nat → Bool := fun i h => p1.getD ((i + h) % p1.length) 0 != 0
+    let c2 : Nat → Nat → Bool := fun i h => p2.getD ((i + h) % p2.length) 0 != 0
+    let r := grahamRun c1 c2 (a.nat "n")
+    report2 r.1 r.2.2 ++ s!" h={r.2.1}"
+  | "thin" =>
+    let rows := a.int "rows"; let cols := a.int "cols"
+    let img := (a.ints "img").map (· != 0)
+    report2 (thinSweep rows cols img) ++ s!" frame={b2s (thinFrameClear rows cols img)}"
+  | "cwnb" =>
+    let shape := a.nats "shape"; let bshape := a.nats "bshape"
+    report2 (cwAccesses shape ((allPos bshape).map fun k => subPos k (bshape.map origin)))
   | k => s!"error=unknown-kind-{k}"
 
 end Mahotas.C10
